@@ -51,9 +51,16 @@ MidVecs == {[offer |-> <<[kind |-> "audio", mid |-> t[1], dir |-> "sendrecv", co
                          [kind |-> "video", mid |-> t[2], dir |-> "sendrecv", codecs |-> "supported"],
                          [kind |-> "application", mid |-> t[3], dir |-> "sendrecv", codecs |-> "supported"]>>,
              pre |-> "none", post |-> po, place |-> "media"] : t \in Mid3, po \in {"track+offer", "dc+offer"}}
+\* an audio and a video section in either order, the first one with no codec (or not only codecs) the
+\* endpoint supports, the second one of every codec class: what an earlier section does to a later one
+OrderVecs == {[offer |-> <<[kind |-> k[1], mid |-> "0", dir |-> "sendrecv", codecs |-> c1],
+                           [kind |-> k[2], mid |-> "1", dir |-> "sendrecv", codecs |-> c2]>>,
+               pre |-> "none", post |-> "none", place |-> "media"] :
+                k \in {<<"audio", "video">>, <<"video", "audio">>}, c1 \in {"unsupported", "mixed"}, c2 \in SCodecs}
 Init == \/ vec \in RandomSubset(NVec, [offer : Offers, pre : Pre, post : Post, place : Place])
         \/ vec \in PrefVecs
         \/ vec \in MidVecs
+        \/ vec \in OrderVecs
 Next == UNCHANGED vec
 
 \* the intended answer, abstractly: same sections; unusable ones rejected in place
